@@ -28,6 +28,7 @@ type Obj struct {
 	Name   string
 	Fresh  bool // allocated during the execution under analysis (not reachable from inputs)
 	Pool   bool // pool-owned buffer (bytebufferpool / sync.Pool)
+	FreshT *Term // Bool: the object's memory is owned by this execution (not an input, not pooled, not a view of either); nil = derive from Fresh/Pool
 	Opaque bool // identity unknown (result of a havoc or of a contracted call): may alias other objects
 }
 
@@ -49,6 +50,7 @@ func (r *RegionVal) Length() *Term {
 }
 
 type MapContent struct {
+	ValFresh *Term          // Bool: every slice stored as (part of) a value is owned memory (see Obj.FreshT); nil = true
 	Dom    *Term            // Array K Bool
 	Leaves map[string]*Term // leaf path -> Array K LeafSort
 	Card   *Term            // Int, number of keys
@@ -309,6 +311,10 @@ func (x *Exec) freshValue(st *State, t types.Type, name string, input bool) Valu
 		}
 	case *types.Slice:
 		reg := newObj(ObjRegion, u.Elem(), name, !input)
+		if !input {
+			// result of a contracted call or of a havoc: ownership is whatever the contract says (unknown otherwise)
+			reg.FreshT = Fresh(name+".owned", SBool)
+		}
 		rv := x.freshRegion(st, u.Elem(), name)
 		st.Heap[reg] = rv
 		nilf := Fresh(name+".nil", SBool)
@@ -391,7 +397,7 @@ func valueLeaves(t types.Type, prefix string, out *[]leaf) {
 
 func (x *Exec) freshMapContent(st *State, m *types.Map, name string) *MapContent {
 	ks := x.elemSort(m.Key())
-	mc := &MapContent{Dom: Fresh(name+".dom", SArr(ks, SBool)), Leaves: map[string]*Term{}, Card: Fresh(name+".card", SInt), Nil: Fresh(name+".nil", SBool)}
+	mc := &MapContent{Dom: Fresh(name+".dom", SArr(ks, SBool)), Leaves: map[string]*Term{}, Card: Fresh(name+".card", SInt), Nil: Fresh(name+".nil", SBool), ValFresh: Fresh(name+".valsowned", SBool)}
 	var ls []leaf
 	valueLeaves(m.Elem(), "", &ls)
 	for _, l := range ls {
@@ -467,6 +473,7 @@ func (x *Exec) zeroValue(st *State, t types.Type) Value {
 		mc := x.freshMapContent(st, u, "nilmap")
 		mc.Nil = TTrue
 		mc.Card = IntLit(0)
+		mc.ValFresh = TTrue
 		st.Assume(x.mapEmpty(mc, u))
 		st.Heap[o] = mc
 		return &MapVal{Obj: o}
@@ -595,6 +602,7 @@ func (x *Exec) newByteSlice(st *State, content *Term, name string) *SliceVal {
 		n := Fresh(name+".n", SInt)
 		a := Fresh(name+".a", SArr(SInt, x.elemSort(types.Typ[types.Uint8])))
 		st.Assume(Eq(n, Len(content)))
+		st.Assume(Le(IntLit(0), n))
 		st.Assume(Eq(App("ofArr", SBytes, a, IntLit(0), n), content))
 		st.Heap[reg] = &RegionVal{Arr: a, Len: n}
 		return &SliceVal{Reg: reg, Off: IntLit(0), Len: n, Cap: n, Nil: TFalse, Elt: types.Typ[types.Uint8]}
